@@ -3,6 +3,8 @@ use vsim_core::{Batch, Prop, Report, Tape, World};
 vsim_core::interpose!();
 
 mod c12;
+mod c15;
+mod c24;
 pub mod eng;
 mod probe;
 
@@ -41,10 +43,34 @@ impl World for W1 {
                 stub: vec!["event source"],
                 assumptions: vec!["slide <= size", "for time-sliding windows the first emission and instants exactly equal to last_emit+slide or trigger-size are not judged (statement leaves the boundary open)"],
             },
+            Prop {
+                id: "C15",
+                batches: vec![
+                    Batch { name: "inorder", quick: 20_000, thorough: 600_000, faulty: false },
+                    Batch { name: "disorder", quick: 40_000, thorough: 1_200_000, faulty: true },
+                ],
+                rule: "one run = one 2- or 3-way join (window 1-5s, 1-3 key values; JoinBuffer driven directly with per-key cap 2-4, or the real Engine pipeline join(A,B[,C]).on(..).window(..)) fed 4-40 events from per-source event-time clocks on a 250/500 ms grid; in the disorder batch stragglers are delivered after newer-stamped events (arrival order != timestamp order) so the expiry scan and the periodic garbage collector see unsorted buffers. Reference model from the property statement, evaluated at every arrival: output must exist when every source holds a same-key event strictly inside +-window that could not have expired; must not exist when some source holds none with ts >= t-window; each contributed partner must be the most recently arrived eligible one when all readings agree. Non-trivial = >= 2 joined outputs and >= 1 arrival judged under the must-exist rule; distinct = distinct decoded-trace hash.",
+                real: vec!["varpulis_runtime::join::JoinBuffer (add_event/try_correlate/cleanup_expired)", "Engine pipeline for join programs (parser, router, join op, emit)"],
+                stub: vec!["event sources and their delivery order (simulated)"],
+                assumptions: vec!["partners exactly at +-window, partners stamped later than t+window, partners displaced by the per-key cap, and partners older than the window relative to some newer-stamped earlier arrival (expiry by progress) are not judged"],
+            },
+            Prop {
+                id: "C24",
+                batches: vec![
+                    Batch { name: "tracker", quick: 30_000, thorough: 900_000, faulty: true },
+                    Batch { name: "engine-gate", quick: 20_000, thorough: 600_000, faulty: true },
+                ],
+                rule: "one run = 2-3 sources with their own event-time clocks, out-of-order bounds 0-1.5s and allowed lateness 0-1.5s, 4-40 deliveries with stragglers delivered up to 6s late, idle sources that first speak late, and (tracker batch) external watermark announcements behind/ahead of the source; either the PerSourceWatermarkTracker driven directly or the real Engine with one .watermark().allowed_lateness() stream per source. After every delivery: no source watermark decreased, effective watermark == min over sources that have one (read from the real tracker via its checkpoint), and an event that produced no output was below the effective watermark by more than its consuming stream's allowed lateness. Non-trivial = >= 2 sources with a watermark (engine batch: also >= 1 dropped and >= 2 processed events); distinct = distinct decoded-trace hash.",
+                real: vec!["varpulis_runtime::watermark::PerSourceWatermarkTracker", "Engine late-data gate in process_inner, .watermark()/.allowed_lateness() compilation"],
+                stub: vec!["event sources and their delivery order (simulated)"],
+                assumptions: vec!["tracker state is observed through its checkpoint (millisecond precision; timestamps are on a 500 ms grid)", "every stream has an allowed_lateness, so 'consuming stream without a lateness setting' does not arise; the late side output cannot be configured from VPL, so 'diverted' is judged as 'not processed'"],
+            },
         ]
     }
     fn run(&self, prop: &str, batch: &str, tape: &mut Tape, rep: &mut Report) {
         match prop {
+            "C24" => c24::run(batch, tape, rep),
+            "C15" => c15::run(batch, tape, rep),
             "C12" => c12::run_c12(batch, tape, rep),
             "C13" => c12::run_c13(batch, tape, rep),
             _ => panic!("vsim harness: unknown property {}", prop),
